@@ -179,6 +179,34 @@ fn c08() -> usize {
     n
 }
 
+/// C05 for the operators compiled only with optional features (pgvector distances) and the other Postgres-only operators: PostgreSQL's
+/// table 4.2 puts every "other operator" BELOW the arithmetic ones and ABOVE the comparisons / BETWEEN / IN / LIKE / IS / NOT / AND / OR, so such an
+/// expression as an operand of + - * / % must be written inside parentheses (re-parse with the engine's precedence: the operand would otherwise
+/// give one of its own operands to the arithmetic operator)
+fn c05() -> usize {
+    use sea_query::extension::postgres::PgBinOper as P;
+    use sea_query::{Alias, BinOper as B, Expr, ExprTrait, PostgresQueryBuilder, Query};
+    let pg: Vec<(P, &str)> = vec![(P::Matches, "@@"), (P::Contains, "@>"), (P::Contained, "<@"), (P::Concatenate, "||"), (P::Overlap, "&&"), (P::Similarity, "%"), (P::WordSimilarity, "<%"),
+        (P::SimilarityDistance, "<->"), (P::GetJsonField, "->"), (P::CastJsonField, "->>"), (P::Regex, "~"), (P::EuclideanDistance, "<->"), (P::NegativeInnerProduct, "<#>"), (P::CosineDistance, "<=>")];
+    let arith: Vec<(B, &str)> = vec![(B::Add, "+"), (B::Sub, "-"), (B::Mul, "*"), (B::Div, "/"), (B::Mod, "%")];
+    let c = |s: &str| Expr::col(Alias::new(s));
+    let mut n = 0usize;
+    for (op, otxt) in &pg {
+        for (ar, atxt) in &arith {
+            // inner on the right: x <ar> (a <op> b)        inner on the left: (a <op> b) <ar> x
+            let inner = || c("a").binary(B::PgOperator(*op), c("b"));
+            let right = Query::select().expr(c("x").binary(*ar, inner())).to_owned().to_string(PostgresQueryBuilder);
+            let left = Query::select().expr(inner().binary(*ar, c("x"))).to_owned().to_string(PostgresQueryBuilder);
+            n += 2;
+            let want_r = format!("SELECT \"x\" {atxt} (\"a\" {otxt} \"b\")");
+            let want_l = format!("SELECT (\"a\" {otxt} \"b\") {atxt} \"x\"");
+            if right != want_r { witness("C05", format!("x {atxt} (a {op:?} b) on postgres"), right, &want_r); }
+            if left != want_l { witness("C05", format!("(a {op:?} b) {atxt} x on postgres"), left, &want_l); }
+        }
+    }
+    n
+}
+
 fn h(v: &impl Hash) -> u64 { let mut s = DefaultHasher::new(); v.hash(&mut s); s.finish() }
 
 fn c18() -> usize {
@@ -228,6 +256,6 @@ fn c18() -> usize {
 fn main() {
     std::panic::set_hook(Box::new(|_| {}));
     let prop = std::env::args().nth(1).unwrap_or_default();
-    let r = std::panic::catch_unwind(|| match prop.as_str() { "C12" => c12(), "C18" => c18(), "C03" => c03(), "C08" => c08(), _ => { eprintln!("usage: vreplay12 C12|C18"); std::process::exit(2) } });
+    let r = std::panic::catch_unwind(|| match prop.as_str() { "C12" => c12(), "C18" => c18(), "C03" => c03(), "C08" => c08(), "C05" => c05(), _ => { eprintln!("usage: vreplay12 C12|C18"); std::process::exit(2) } });
     match r { Ok(n) => println!("CASES {n}"), Err(_) => witness(&prop, "(whole search)".into(), "a conversion / comparison panicked".into(), "no panic") }
 }
